@@ -323,11 +323,14 @@ impl<'a, W: io::Write> ser::SerializeStructVariant for Compound<'a, W> {
 pub struct Deserializer<R: io::Read> {
     r: R,
     peeked: Option<u8>,
+    /// hand strings to the visitor as `visit_str` on a transient buffer (as a format with an
+    /// internal scratch buffer does) instead of `visit_string`
+    pub transient_strings: bool,
 }
 
 impl<R: io::Read> Deserializer<R> {
     pub fn new(r: R) -> Self {
-        Deserializer { r, peeked: None }
+        Deserializer { r, peeked: None, transient_strings: false }
     }
 
     fn fill(&mut self, buf: &mut [u8]) -> Res<()> {
@@ -432,7 +435,14 @@ impl<'de, 'a, R: io::Read> de::Deserializer<'de> for &'a mut Deserializer<R> {
             b'U' => visitor.visit_u64(u64::from_le_bytes(self.eight()?)),
             b'I' => visitor.visit_i64(i64::from_le_bytes(self.eight()?)),
             b'D' => visitor.visit_f64(f64::from_le_bytes(self.eight()?)),
-            b'S' => visitor.visit_string(self.string()?),
+            b'S' => {
+                let text = self.string()?;
+                if self.transient_strings {
+                    visitor.visit_str(&text)
+                } else {
+                    visitor.visit_string(text)
+                }
+            }
             b'B' => visitor.visit_byte_buf(self.blob()?),
             b'A' => {
                 let mut done = false;
